@@ -147,6 +147,12 @@ func (d *DeadlineChan[T]) Recv() (b T, err error) {
 	verifhook.Yield("common.DeadlineChan.Recv:after-poll")
 
 	if d.closed.Load() {
+		// An item may have been queued between the poll above and Close.
+		select {
+		case b = <-d.C:
+			return
+		default:
+		}
 		err = io.EOF
 		return
 	}
@@ -155,18 +161,23 @@ func (d *DeadlineChan[T]) Recv() (b T, err error) {
 	errChan := d.deadline.Done()
 	select {
 	case <-errChan:
-		err = d.deadline.Err()
-		return
 	default:
 		verifhook.Yield("common.DeadlineChan.Recv:before-wait")
 		select {
 		case <-errChan:
-			err = d.deadline.Err()
-			return
 		case b = <-d.C:
 			return
 		}
 	}
+	// Canceled, closed or timed out. Buffered data still comes first: when both
+	// the deadline channel and the queue are ready, select picks at random.
+	select {
+	case b = <-d.C:
+		return
+	default:
+	}
+	err = d.deadline.Err()
+	return
 }
 
 // Send send one byte slice on the underlying channel
